@@ -47,9 +47,42 @@ def _rm_variant(self):
     return seq_len(sock_data(s)) - sock_pos(s)
 
 
+def _stream_sample(rng):
+    """Run-time stand-in inputs for the reader: streams as peers really send them -- protocol
+    lines with runs of blanks, leading / trailing blanks, tabs, non-ASCII names, lone CR or LF
+    inside, missing terminators, the peer closing in the middle of a line -- mixed with random
+    bytes; the cursor anywhere in the stream."""
+    from pyvc.ext import FakeSocket
+    words = ['North', 'bids', '1NT', 'Alert.', 'Connecting', '"Team  A"', 'as', 'South', 'using',
+             'protocol', 'version', '18', 'ready', 'for', 'teams', "East's", 'cards', ':', 'S', 'A',
+             'K', '-.', 'passes', '', ' ', '\t', 'Zo\u00eb', '"  x "', 'to', 'lead', 'plays', 'd2']
+    data = bytearray()
+    starts = [0]
+    for _ in range(rng.randint(0, 4)):
+        if rng.random() < 0.25:
+            line = bytes(rng.randrange(128) for _ in range(rng.randint(0, 12)))   # (valid UTF-8)
+        else:
+            seps = [' ', '  ', '   ', ' \t ']
+            line = ''.join(rng.choice(words) + rng.choice(seps)
+                           for _ in range(rng.randint(0, 7)))
+            if rng.random() < 0.5:
+                line = line.rstrip(' ')
+            if rng.random() < 0.2:
+                line = ' ' + line
+            line = line.encode('utf-8')
+        r = rng.random()
+        term = b'\r\n' if r < 0.75 else (b'\r' if r < 0.82 else (b'\n' if r < 0.9 else b''))
+        data += line + term
+        starts.append(len(data))
+    # (the cursor at a character boundary: the reader decodes what it has consumed)
+    pos = rng.choice(starts) if rng.random() < 0.3 else 0
+    return dict(self=MessageInterface(FakeSocket(bytes(data), pos)))
+
+
 @contract('bridge_env.network_bridge.socket_interface.MessageInterface.receive_message',
           props=P + ['C20'])
 class _receive:
+    sample_params = _stream_sample
     params = dict(self=MIShape)
     returns = DecodedStr()
     raises = {Exception: 'onlyif'}
